@@ -152,6 +152,13 @@ class Summ:
             t2 = self.drop_cond(t)
             if t2 is not None:
                 t = t2
+            # one spelling per atomic decision: no leading negation, `!=` as a failed `==`
+            while isinstance(t, tuple) and len(t) == 2 and t[0] == '!':
+                t, pol = t[1], not pol
+            if isinstance(t, tuple) and len(t) == 3 and t[0] == '!=':
+                t, pol = ('==',) + t[1:], not pol
+            if t in ('TRUE', 'FALSE') and pol is False:
+                t, pol = ('FALSE' if t == 'TRUE' else 'TRUE'), True
             return ('if', t, pol)
         labels = tuple(sorted(((l[0], l[2] if l[2] is not None else l[1]) for l in pol), key=repr))
         return ('switch', self.term(node), labels)
